@@ -171,6 +171,8 @@ structure BufCfg where
 structure BufSt where
   conn : List Nat := []   -- ascending
   inc : List Nat := []    -- oldest first
+  trail : List (Nat × Nat) := []
+  trailRet : Nat := 0
 
 def BufCfg.parents (c : BufCfg) (e : Nat) : List Nat := ((c.evs.find? (·.1 == e)).map (·.2.2)).getD []
 
@@ -195,19 +197,57 @@ def bufSpill (c : BufCfg) (limNum limSize : Nat) : List Nat → List Nat
     if (rest.length + 1) % 4294967296 > limNum || bufWeight c (e :: rest) > limSize then bufSpill c limNum limSize rest
     else e :: rest
 
+/-- (count, bytes) of the cache while the entries of `l` are removed oldest first until `stop` entries are left -/
+def bufSuffixStates (c : BufCfg) : Nat → List Nat → List (Nat × Nat)
+  | stop, l =>
+    if l.length ≤ stop then [(l.length, bufWeight c l)]
+    else match l with
+      | [] => [(0, 0)]
+      | e :: rest => (rest.length + 1, bufWeight c (e :: rest)) :: bufSuffixStates c stop rest
+termination_by _ l => l.length
+
+/-- (count, bytes) after removing any subset of `r` from a cache holding (n, w): the removals of a
+cascade happen one entry at a time in an order the specification does not fix -/
+def bufSubsetStates (c : BufCfg) (n w : Nat) : List Nat → List (Nat × Nat)
+  | [] => [(n, w)]
+  | e :: rest =>
+    let l := bufSubsetStates c n w rest
+    (l ++ l.map fun (p : Nat × Nat) => (p.1 - 1, p.2 - c.size e)).eraseDups
+
+def fmtTotal (p : Nat × Nat) : String := s!"{p.1},{p.2}"
+
+/-- Ops may carry stamps (non-strict judging of concurrent `Total`): `push e <ret>`, `clear <ret>`,
+`total <inv> <observed>`. `trail` = the fine-grained cache states (single-entry adds / removals)
+the last mutating operation went through, `trailRet` = its return stamp: a `total` invoked before
+that operation returned may have observed any of them. -/
 def bufMod (c : BufCfg) : Mod BufSt where
-  key st := toString st.conn ++ "/" ++ toString st.inc
+  key st := toString st.conn ++ "/" ++ toString st.inc ++ s!"/{st.trailRet}/" ++ toString st.trail
   apply st ws :=
-    match ws with
-    | ["push", e] =>
-      let e := nat! e
+    let push (e ret : Nat) : BufSt × String :=
       if st.inc.contains e || st.conn.contains e then (st, "0")
       else if (c.parents e).all st.conn.contains then
-        (bufClosure c (st.inc.length + 1) { st with conn := insertSorted e st.conn }, "1")
-      else ({ st with inc := bufSpill c c.limNum c.limSize (st.inc ++ [e]) }, "0")
-    | ["clear"] => ({ st with inc := [] }, "-")
+        let st' := bufClosure c (st.inc.length + 1) { st with conn := insertSorted e st.conn }
+        let removed := st.inc.filter fun x => !st'.inc.contains x
+        ({ st' with trailRet := ret, trail := bufSubsetStates c st.inc.length (bufWeight c st.inc) removed }, "1")
+      else
+        let added := st.inc ++ [e]
+        let inc' := bufSpill c c.limNum c.limSize added
+        ({ st with inc := inc', trailRet := ret,
+                   trail := (st.inc.length, bufWeight c st.inc) :: bufSuffixStates c inc'.length added }, "0")
+    let clear (ret : Nat) : BufSt × String :=
+      ({ st with inc := [], trailRet := ret, trail := bufSuffixStates c 0 st.inc }, "-")
+    let cur := fmtTotal (st.inc.length, bufWeight c st.inc)
+    match ws with
+    | ["push", e] => push (nat! e) 0
+    | ["push", e, ret] => push (nat! e) (nat! ret)
+    | ["clear"] => clear 0
+    | ["clear", ret] => clear (nat! ret)
     | ["isbuf", e] => (st, b2s (st.inc.contains (nat! e)))
-    | ["total"] => (st, s!"{st.inc.length},{bufWeight c st.inc}")
+    | ["total"] => (st, cur)
+    | ["total", inv, obs] =>
+      if obs == cur then (st, obs)
+      else if nat! inv < st.trailRet && st.trail.any (fun p => fmtTotal p == obs) then (st, obs)
+      else (st, cur)
     | _ => (st, "bad-op")
 
 /-! ## the stream -/
@@ -282,11 +322,19 @@ def judge (st : St) (entries : List (String × Nat × Nat × Nat × String)) : S
       | "buf" =>
         let strict := param st.params "strict" 0 == 1
         let cfg : BufCfg := { evs := st.evs, limNum := param st.params "num" 3, limSize := param st.params "size" 1000 }
-        -- IsBuffered / Total are exempt (they can see the cache between the steps of a PushEvent / Clear):
-        -- judged only where nothing runs concurrently (pre / post), or everywhere with strict=1
+        -- IsBuffered / Total do not take buf.mu: they can see the cache between the single-entry steps of a
+        -- PushEvent / Clear (known finding under strict=1). Non-strict: a concurrent `total` must equal the
+        -- (count, bytes) of SOME fine-grained cache state between its invoke and return (a mixed pair is
+        -- rejected); a concurrent `isbuf` is not judged. pre / post ops are always judged exactly.
         let relaxed := ts.map fun t =>
           if strict || t.1 == "p" || t.1 == "f" then t.2
-          else t.2.map fun r => if r.op.head? == some "isbuf" || r.op.head? == some "total" then { r with res := "*" } else r
+          else t.2.map fun r =>
+            match r.op with
+            | ["isbuf", _] => { r with res := "*" }
+            | ["total"] => { r with op := ["total", toString r.inv, r.res] }
+            | ["push", e] => { r with op := ["push", e, toString r.ret] }
+            | ["clear"] => { r with op := ["clear", toString r.ret] }
+            | _ => r
         verdict "buffer" (linearizable (bufMod cfg) {} relaxed)
       | c => some s!"FAIL unknown-component {c}"
     r.getD "ok"
